@@ -53,6 +53,17 @@ def handleSync (st : Option SyncState) : List String → Option (Option SyncStat
     let s ← st
     let (s', out) := round s.cfg { s.st with now := s.st.now + 1 } (← bool? force) (csv fails) (← bool? lf)
     pure (some { s with st := s' }, sendsStr out)
+  | ["sync.roundduring", force, fails, lf, ty, src, "bad"] => do
+    let s ← st
+    let t ← (if ty == "poll" then some MsgType.poll else if ty == "req" then some MsgType.requestPoll else none)
+    let (s', out) := roundIl s.cfg { s.st with now := s.st.now + 1 } (← bool? force) (csv fails) (← bool? lf) (some (t, src, none))
+    pure (some { s with st := s' }, sendsStr out)
+  | ["sync.roundduring", force, fails, lf, ty, src, ver, assets, allowed, r1, r2, r3, r4] => do
+    let s ← st
+    let t ← (if ty == "poll" then some MsgType.poll else if ty == "req" then some MsgType.requestPoll else none)
+    let c : Cap := ⟨← nat? ver, ← (csv assets).mapM assetOf, ← bool? allowed, [← int? r1, ← int? r2, ← int? r3, ← int? r4]⟩
+    let (s', out) := roundIl s.cfg { s.st with now := s.st.now + 1 } (← bool? force) (csv fails) (← bool? lf) (some (t, src, some c))
+    pure (some { s with st := s' }, sendsStr out)
   | ["sync.cleanup", lf] => do
     let s ← st
     pure (some { s with st := cleanup s.cfg { s.st with now := s.st.now + 1 } (← bool? lf) }, "ok")
